@@ -85,6 +85,8 @@ type Interp struct {
 	chanUndo []chanUndoRec
 	deferCall bool
 	syncMaps map[*Value]*Map
+	// streaming SHA-256 digests: bytes written so far
+	shaStreams map[*Value]*[]Value
 	lateCache map[*ssa.Return][]bool
 	lateStoreCache map[*ssa.Store]bool
 }
